@@ -133,10 +133,18 @@ func (f *FailReader) Read(p []byte) (int, error) {
 type FailWriter struct {
 	At      int
 	Mode    string
+	Err     error // the error to fail with (default ErrInjected)
 	Got     []byte
 	Fired   int
 	Calls   int
 	started int
+}
+
+func (w *FailWriter) err() error {
+	if w.Err != nil {
+		return w.Err
+	}
+	return ErrInjected
 }
 
 func (w *FailWriter) Write(p []byte) (int, error) {
@@ -147,7 +155,7 @@ func (w *FailWriter) Write(p []byte) (int, error) {
 		// other call is accepted in full
 		if w.Calls == w.At {
 			w.Fired++
-			return 0, ErrInjected
+			return 0, w.err()
 		}
 		w.Got = append(w.Got, p...)
 		return len(p), nil
@@ -156,7 +164,7 @@ func (w *FailWriter) Write(p []byte) (int, error) {
 		if w.Calls == w.At {
 			w.Fired++
 			w.Got = append(w.Got, p[:len(p)/2]...)
-			return len(p) / 2, ErrInjected
+			return len(p) / 2, w.err()
 		}
 		w.Got = append(w.Got, p...)
 		return len(p), nil
@@ -166,7 +174,7 @@ func (w *FailWriter) Write(p []byte) (int, error) {
 		w.Got = append(w.Got, p...)
 		if w.Calls == w.At {
 			w.Fired++
-			return len(p), ErrInjected
+			return len(p), w.err()
 		}
 		return len(p), nil
 	case "full":
@@ -175,13 +183,13 @@ func (w *FailWriter) Write(p []byte) (int, error) {
 		w.Got = append(w.Got, p...)
 		if len(w.Got) > w.At {
 			w.Fired++
-			return len(p), ErrInjected
+			return len(p), w.err()
 		}
 		return len(p), nil
 	case "short":
 		if len(w.Got) >= w.At {
 			w.Fired++
-			return 0, ErrInjected
+			return 0, w.err()
 		}
 		room := w.At - len(w.Got)
 		if len(p) <= room {
@@ -190,11 +198,11 @@ func (w *FailWriter) Write(p []byte) (int, error) {
 		}
 		w.Got = append(w.Got, p[:room]...)
 		w.Fired++
-		return room, ErrInjected
+		return room, w.err()
 	default: // "call"
 		if len(w.Got) >= w.At {
 			w.Fired++
-			return 0, ErrInjected
+			return 0, w.err()
 		}
 		w.Got = append(w.Got, p...)
 		return len(p), nil
